@@ -241,7 +241,7 @@ def unify(kind_a, kind_b):
         raise ValueError("arithmetic with flags is not permitted")
 
     if isinstance(kind_a, UserType):
-        assert isinstance(kind_b, (UserType, Scalar))
+        assert isinstance(kind_b, (UserType, Scalar, Integer))
 
         if isinstance(kind_b, UserType):
             if kind_a.identifier != kind_b.identifier:
@@ -252,6 +252,9 @@ def unify(kind_a, kind_b):
         return kind_a
 
     if isinstance(kind_a, Array):
+        if isinstance(kind_b, Integer):
+            return kind_a
+
         assert isinstance(kind_b, (Array, Scalar))
 
         return Array(
